@@ -58,6 +58,36 @@ func (fx *Fx) hardwired(st *State, fn *types.Func, call *ast.CallExpr, recv *Val
 	}
 	boolT := types.Typ[types.Bool]
 	switch fn.Pkg().Path() {
+	case "sort":
+		// sort.Slice(x, less) / sort.SliceStable: the elements of x are permuted in place (a bijection of the positions
+		// of x; nothing outside x changes).  The comparison function is not run by the model: its verdicts decide only
+		// which permutation, which no contract here depends on.
+		if (fn.Name() == "Slice" || fn.Name() == "SliceStable") && recv == nil && len(call.Args) == 2 {
+			x := argv(0)
+			sl, ok := types.Unalias(fx.info.TypeOf(call.Args[0])).Underlying().(*types.Slice)
+			if !ok || x.S != "Slice" {
+				return nil, false
+			}
+			argv(1)
+			s := c.define("srt", "Slice", x.T)
+			es := c.sortOf(sl.Elem())
+			key, hs := "E:"+typeKey(sl.Elem()), "(Array Int (Array Int "+es+"))"
+			oldH := st.heap(key, hs)
+			oldA := c.define("sorted_old", "(Array Int "+es+")", fmt.Sprintf("(select %s (s_base %s))", oldH, s))
+			newA := c.freshConst("sorted_new", "(Array Int "+es+")")
+			perm, inv := c.fresh("sortperm"), c.fresh("sortinv")
+			c.declareFun(perm, []string{"Int"}, "Int")
+			c.declareFun(inv, []string{"Int"}, "Int")
+			lo, hi := fmt.Sprintf("(s_off %s)", s), fmt.Sprintf("(+ (s_off %s) (s_len %s))", s, s)
+			st.assume(fmt.Sprintf("(forall ((p!s Int)) (! (=> (and (<= %s p!s) (< p!s %s)) (and (<= %s (%s p!s)) (< (%s p!s) %s) (= (%s (%s p!s)) p!s) (= (select %s p!s) (select %s (%s p!s))))) :pattern ((select %s p!s)) :pattern ((%s p!s))))",
+				lo, hi, lo, perm, perm, hi, inv, perm, newA, oldA, perm, newA, perm))
+			st.assume(fmt.Sprintf("(forall ((q!s Int)) (! (=> (and (<= %s q!s) (< q!s %s)) (and (<= %s (%s q!s)) (< (%s q!s) %s) (= (%s (%s q!s)) q!s))) :pattern ((select %s q!s)) :pattern ((%s q!s))))",
+				lo, hi, lo, inv, inv, hi, perm, inv, oldA, inv))
+			st.assume(fmt.Sprintf("(forall ((p!s Int)) (! (=> (not (and (<= %s p!s) (< p!s %s))) (= (select %s p!s) (select %s p!s))) :pattern ((select %s p!s))))", lo, hi, newA, oldA, newA))
+			st.setHeap(key, hs, fmt.Sprintf("(store %s (s_base %s) %s)", oldH, s, newA))
+			return nil, true
+		}
+		return nil, false
 	case "sync":
 		if recv == nil {
 			return nil, false
